@@ -32,6 +32,7 @@ func NewInterp(p *Program, cfg *Config, sh *Shared, id int) (*Interp, error) {
 	in.lazyErrT = mkFakeErrType("fmtError")
 	in.nativeErrT = mkFakeErrType("nativeError")
 	in.nativeObjT = mkFakeErrType("nativeObject")
+	in.rtypeT = mkFakeErrType("rtype")
 	in.rtErrType = types.Typ[types.String]
 	s, err := sym.NewSolver(cfg.SolverKind, cfg.SolverTimeoutMs)
 	if err != nil {
